@@ -230,8 +230,9 @@ def cvsplit_obligations():
     return tie(tag, mod_, funcs, tmpl, CVSPLIT_THEOREMS, imports)
 
 
-BSS_FUNCS = ["BlockShuffleSplit._iter_test_indices"]
-BSS_THEOREMS = ["src_BlockShuffleSplit_iter_test_indices_eq"]
+BSS_FUNCS = ["BlockShuffleSplit._iter_test_indices",
+             (os.path.join("verde", "base", "base_classes.py"), "BaseBlockCrossValidator.split")]
+BSS_THEOREMS = ["src_BlockShuffleSplit_iter_test_indices_eq", "src_BlockShuffleSplit_split_eq"]
 BSS_SPEC = ("BSSSrc", os.path.join("verde", "model_selection.py"), BSS_FUNCS, "pylite_bss.v.tmpl", CVSPLIT_IMPORTS)
 
 
